@@ -78,12 +78,73 @@ def case_strategy(draw: Any) -> Dict[str, Any]:
                         "excl": draw(st.booleans())})
         else:
             ops.append({"op": "settle"})
-    return {
+    case = {
         "sched": draw(st.integers(0, 999)),
         "init_win": draw(st.sampled_from([None, None, 0, 1, 1000, 20000, 1 << 20])),
         "max_frame": draw(st.sampled_from([None, None, 16384, 30000])),
         "streams": streams, "ops": ops,
     }
+    # known finding C09-1: exclude the re-prioritisations under an own descendant (counted)
+    for _ in range(12):
+        bad = cycle_steps(case)
+        if not bad:
+            break
+        case["adjusted"] = "priority_cycle"
+        first = bad[0]
+        if first.startswith("op "):
+            case["ops"][int(first[3:])] = {"op": "settle"}
+        else:
+            case["streams"][int(first.split()[1])]["prio"] = None
+    return case
+
+
+def cycle_steps(case: Dict[str, Any]) -> List[str]:
+    """Reference model of the RFC 7540 5.3 dependency tree (closed streams are kept: a
+    superset). Returns the priority signals that make a stream depend on one of its own
+    descendants - the re-prioritisation the `priority` library mishandles (known finding
+    C09-1). An exclusive insertion adopts the parent's other children, so such a step needs
+    no dependency on a *later* stream."""
+    n = len(case["streams"])
+    sids = [1 + 2 * i for i in range(n)]
+    parent: Dict[int, int] = {}
+
+    def dep_of(p: Dict[str, Any], own: int) -> int:
+        d = 0 if p["dep"] == 0 else sids[(p["dep"] - 1) % n]
+        return 0 if d == own else d
+
+    def is_descendant(a: int, b: int) -> bool:  # is b below a?
+        seen = set()
+        while b in parent and b not in seen:
+            seen.add(b)
+            b = parent[b]
+            if b == a:
+                return True
+        return False
+
+    out: List[str] = []
+
+    def signal(sid: int, p: Dict[str, Any], what: str) -> None:
+        d = dep_of(p, sid)
+        if d != 0 and d not in parent:
+            parent[d] = 0  # a dependency on an idle stream creates it with default priority
+        if sid in parent and d != 0 and is_descendant(sid, d):
+            out.append(what)
+            parent[d] = parent[sid]  # RFC: the descendant is first moved up
+        if p["excl"]:
+            for c, q in list(parent.items()):
+                if q == d and c != sid:
+                    parent[c] = sid
+        parent[sid] = d
+
+    for i, spec in enumerate(case["streams"]):
+        if spec["prio"]:
+            signal(sids[i], spec["prio"], f"stream {i} opening priority")
+        elif sids[i] not in parent:
+            parent[sids[i]] = 0
+    for k, op in enumerate(case["ops"]):
+        if op["op"] == "prio":
+            signal(sids[op["s"]], op, f"op {k}")
+    return out
 
 
 def program(spec: Dict[str, Any], i: int) -> list:
@@ -339,12 +400,11 @@ def judge(case: Dict[str, Any], obs: Any) -> Dict[str, Any]:
     if client.error:
         raise Violation("client_protocol_error", client.error, **tag)
     if client.goaway not in (None, 0):
-        cyc = any(s["prio"] and s["prio"]["dep"] > i for i, s in enumerate(case["streams"])) or \
-            any(o["op"] == "prio" and o["dep"] > o["s"] for o in case["ops"])
+        cyc = cycle_steps(case)
         if cyc and client.goaway == 2:
-            raise Violation("priority_cycle_kills_connection", "a dependency on a later stream "
-                            "(possible cycle) ended the whole connection with GOAWAY "
-                            "INTERNAL_ERROR", **tag)
+            raise Violation("priority_cycle_kills_connection", f"a dependency on the stream's "
+                            f"own descendant ({cyc}) ended the whole connection with GOAWAY "
+                            f"INTERNAL_ERROR", **tag)
         raise Violation("connection_error", f"GOAWAY {client.goaway}", **tag)
     if val["stuck"]:
         raise Violation("progress_stalled", f"at a quiescent point with no SETTINGS pending: "
@@ -389,6 +449,8 @@ def run_case(case: Dict[str, Any]) -> CaseInfo:
         classes.append("priority")
     if info["zero"]:
         classes.append("window_hit_zero")
+    if case.get("adjusted"):
+        classes.append("adjusted:" + case["adjusted"])
     return CaseInfo(info["zero"] or info["carried"] >= 2, classes, evals=2)
 
 
